@@ -139,6 +139,11 @@ seed("C19-2", "C19", "complex_pair_samples passes max_imag_values[0] to the seco
      first_result="missed (HELD): the product workload passed one scalar bound for every dimension",
      strengthened="per-dimension bounds passed as tuples (None members included), ranges across zero, complex pair with four independent bounds")
 
+seed("C15-1", "C15", "mpf2float shifts out all mantissa bits below the leading 2p+2 before rounding, without a sticky bit",
+     "an mpf with a long mantissa lying within 2^-(p+2) ulp above a rounding tie whose p-bit prefix is even", "C15 quick: mpf2float-rounding-normal (exact-rational oracle on tie-adjacent values with long tails)")
+seed("C15-2", "C15", "vectorize_with_mpmath: an unspecified flush_subnormals (truthy sentinel) reaches mpf2float as 'flush'",
+     "a function evaluated through the backend without a flush_subnormals argument and a subnormal result", "C15 quick: backend-subnormal-result (flush: unspecified / False / True are all driven)")
+
 for id_, meta in T.items():
     d = os.path.join(ROOT, id_)
     if not os.path.isdir(d):
